@@ -56,7 +56,8 @@ func (f *MemFile) Chdir() error {
 		return &fs.PathError{Op: op, Path: f.name, Err: err}
 	}
 
-	_ = f.vfs.SetCurDir(f.name)
+	// The name given to Open may be relative to the directory that was current at that time.
+	_ = f.vfs.SetCurDir(f.absName)
 
 	return nil
 }
